@@ -161,7 +161,7 @@ impl Scenario for C14 {
             components_stubbed: &["TCP (SimNet)", "EPMD (stub)", "remote node: sender-side atom cache model + independent header writer/reader"],
             assumptions: &["any slot assignment by the sender conforms (the receiver must follow the header); real OTP picks the slot by atom hash", "the order of atoms in this library's own header is seeded through hook H11"],
             fault_prefixes: &["fault.", "net."],
-            expected_probes: &["probe.c14.old_entry_referenced", "probe.c14.slot_overwritten", "probe.c14.segment_above_zero", "probe.c14.position_differs_from_slot", "probe.c14.long_atoms_even_count", "probe.c14.long_atoms_odd_count", "probe.c14.own_header_read", "probe.c14.own_header_long_atoms", "probe.c14.echo_decoded", "probe.c14.too_many_atoms_rejected", "probe.c14.header_255_atoms"],
+            expected_probes: &["probe.c14.old_entry_referenced", "probe.c14.slot_overwritten", "probe.c14.segment_above_zero", "probe.c14.segment_seven", "probe.c14.position_differs_from_slot", "probe.c14.long_atoms_even_count", "probe.c14.long_atoms_odd_count", "probe.c14.own_header_read", "probe.c14.own_header_long_atoms", "probe.c14.echo_decoded", "probe.c14.too_many_atoms_rejected", "probe.c14.header_255_atoms"],
         }
     }
 }
@@ -175,7 +175,7 @@ async fn recv_dir(w: &Arc<World>, p: &Plan) {
             NetCfg { client: p.client.clone(), server: p.server.clone(), cap: 0 },
             OTP_FLAGS_BASE | FLAG_DIST_HDR_ATOM_CACHE | FLAG_FRAGMENTS,
             move |w, conn, _seen| {
-                let mut cache = SenderCache::default();
+                let mut cache = SenderCache { all_segments: true, ..Default::default() };
                 let mut frames = Vec::new();
                 let mut expect = Vec::new();
                 for (k, m) in p2.msgs.iter().enumerate() {
